@@ -11,7 +11,8 @@ c18        <hdr> <ops…>                 → e <n> <classes…> f <k> <nodes:lo
 c18main    <hdr> <ops…>                 → s <0|1> a <0|1> t <0|1> d <diag>          (build.Main on the built context)
 accept-c18 <observed…> <hdr> <ops…>    → ok | first violated clause
 c18max     <mx> <nerrs>                 → number of diagnostic lines (LogError truncation; not part of the property)
-hdr = route=<ctx|pkg> f3a=<b> f3b=<b> f4=<b> f9=<b> n=<number of ops>
+c18exit    <status>                     → exit code the operating system reports for os.Exit(status) (measured in a child process)
+hdr = route=<ctx|pkg>[.flags|.child][.mx<limit>] f3a=<b> f3b=<b> f4=<b> f9=<b> n=<number of ops>
 ```
 Build-constraint terms travel as code points (`78.b2`, `-` = empty) followed by the
 verdict of the installed `go/build/constraint` on that term (`1` = it parses to that
@@ -225,6 +226,8 @@ structure Hdr where
   f4 : Bool
   f9 : Bool
   n : Nat
+  /-- error limit of the configuration (`route=….mx10`; absent = unlimited) -/
+  mx : Nat := 0
 
 def kv (key : String) (t : String) : Option String :=
   match t.splitOn "=" with
@@ -233,13 +236,15 @@ def kv (key : String) (t : String) : Option String :=
 
 def parseHdr : List String → Option (Hdr × List String)
   | rt :: a :: b :: c :: d :: n :: r => do
-    let _ ← kv "route" rt
+    let rt ← kv "route" rt
+    -- route=<api>[.flags|.child][.mx<limit>]: only the error limit matters to the model
+    let mx := ((rt.splitOn ".").filterMap (fun p => if p.startsWith "mx" then (p.drop 2).toString.toNat? else none)).headD 0
     let a ← (kv "f3a" a).bind bool?
     let b ← (kv "f3b" b).bind bool?
     let c ← (kv "f4" c).bind bool?
     let d ← (kv "f9" d).bind bool?
     let n ← (kv "n" n).bind String.toNat?
-    pure (⟨a, b, c, d, n⟩, r)
+    pure (⟨a, b, c, d, n, mx⟩, r)
   | _ => none
 
 /-! flags of the listed findings, recomputed -/
@@ -310,10 +315,11 @@ def respond (ops : List Op) : String :=
     ["g", toString gl.length] ++ gl.map (fun g => s!"{g.data.length}:{g.size}") ++
     ["c", toString c.cons.length, "o", String.ofList ('-' :: c.secOrder.map (fun b => if b then 'F' else 'G'))])
 
-def respondMain (ops : List Op) : String :=
+def respondMain (mx : Nat) (ops : List Op) : String :=
   let c := run tc Ctx.init ops
-  let o := main 0 (stdPasses lim c) c
-  joinSp ["s", b01 (o.status != 0), "a", b01 (o.printed.contains 1), "t", b01 (o.printed.contains 2),
+  let o := main mx (stdPasses lim c) c
+  -- the status is the process exit code: what the operating system keeps of `os.Exit(status)`
+  joinSp ["s", b01 (exitCode o.status != 0), "a", b01 (o.printed.contains 1), "t", b01 (o.printed.contains 2),
     "d", toString o.diag]
 
 def passErr? (s : String) : Option PassErr :=
@@ -322,14 +328,14 @@ def passErr? (s : String) : Option PassErr :=
 def parseObserved : List String → Option (Observed × List String)
   | e :: s :: a :: t :: d :: p :: pa :: pe :: r => do
     let e ← (kv "errs" e).bind String.toNat?
-    let s ← (kv "status" s).bind String.toNat?
+    let s ← (kv "status" s).bind String.toInt?
     let a ← (kv "asm" a).bind String.toNat?
     let t ← (kv "stubs" t).bind String.toNat?
     let d ← (kv "diag" d).bind String.toNat?
     let p ← (kv "panics" p).bind String.toNat?
     let _ ← kv "pat" pa   -- where the first panic happened (informative)
     let pe ← kv "perr" pe
-    pure (⟨e, s, a, t, d, p, passErr? pe⟩, r)
+    pure (⟨e, s, a, t, d, p, passErr? pe, 0⟩, r)
   | _ => none
 
 /-- Explanation of a rejected outcome (the verdict itself is `c18Accept`): every
@@ -340,16 +346,16 @@ def explain (nf na : Nat) (sb : Bool) (pf : List PassErr) (o : Observed) : Strin
   let ctx := s!"faults={nf} nil={na} stubbreak={b01 sb} passfaults={pfs}"
   let cl : List (Bool × String) := [
     (o.panics != 0, "bad-panic"),
-    (o.status != 0 && (o.asm != 0 || o.stubs != 0), "bad-output-written-on-failure"),
-    (nf > 0 && o.status == 0, "bad-status-0-with-faults"),
-    (nf > 0 && !(nf ≤ o.errs && o.errs ≤ nf + na && o.diag == o.errs), s!"bad-error-count errs={o.errs} diag={o.diag}"),
-    (nf == 0 && !(o.errs ≤ na && (o.errs == 0 || (o.status != 0 && o.diag == o.errs))),
+    (o.exit != 0 && (o.asm != 0 || o.stubs != 0), "bad-output-written-on-failure"),
+    (nf > 0 && o.exit == 0, "bad-status-0-with-faults"),
+    (nf > 0 && !(nf ≤ o.errs && o.errs ≤ nf + na && o.diag == logLines o.mx o.errs), s!"bad-error-count errs={o.errs} diag={o.diag}"),
+    (nf == 0 && !(o.errs ≤ na && (o.errs == 0 || (o.exit != 0 && o.diag == logLines o.mx o.errs))),
       s!"bad-errors-without-fault errs={o.errs} diag={o.diag}"),
-    (nf == 0 && na == 0 && !pf.isEmpty && o.status == 0, "bad-status-0-with-passfaults"),
-    (nf == 0 && na == 0 && !pf.isEmpty && o.status != 0 && !decide (passErrAmong pf o), "bad-pass-error"),
-    (nf == 0 && na == 0 && pf.isEmpty && !sb && !(o.status == 0 && o.diag == 0 && o.asm > 0 && o.stubs > 0),
+    (nf == 0 && na == 0 && !pf.isEmpty && o.exit == 0, "bad-status-0-with-passfaults"),
+    (nf == 0 && na == 0 && !pf.isEmpty && o.exit != 0 && !decide (passErrAmong pf o), "bad-pass-error"),
+    (nf == 0 && na == 0 && pf.isEmpty && !sb && !(o.exit == 0 && o.diag == 0 && o.asm > 0 && o.stubs > 0),
       s!"bad-valid-history-rejected status={o.status} diag={o.diag} asm={o.asm} stubs={o.stubs}"),
-    (nf == 0 && na == 0 && pf.isEmpty && sb && o.status == 0 && !(o.asm > 0 && o.stubs > 0),
+    (nf == 0 && na == 0 && pf.isEmpty && sb && o.exit == 0 && !(o.asm > 0 && o.stubs > 0),
       s!"bad-status-0-with-output-missing asm={o.asm} stubs={o.stubs}")]
   let bad := (cl.filter (·.1)).map (·.2)
   (if bad.isEmpty then "bad-unexplained" else ";".intercalate bad) ++ " " ++ ctx
@@ -380,10 +386,11 @@ def handle : Handler
     if !slotsOK tc Ctx.init ops then some "bad-slot" else
     if !negOK tc Ctx.init ops then some "bad-negoff-outside-section" else
     if !flagsOK h ops c then some "bad-flags" else
-    some (respondMain ops)
+    some (respondMain h.mx ops)
   | "accept-c18" :: rest => do
     let (o, rest) ← parseObserved rest
     let (h, rest) ← parseHdr rest
+    let o := { o with mx := h.mx }
     let (ops, clsOK) ← parseOps (rest.length + 1) rest
     let c := run tc Ctx.init ops
     if !clsOK then some "bad-termclass" else
@@ -399,11 +406,12 @@ def handle : Handler
   | ["c18max", mx, n] => do
     let mx ← mx.toNat?; let n ← n.toNat?
     some (toString (logLines mx n))
+  | ["c18exit", k] => k.toInt?.map (fun k => toString (exitCode k))
   | ["c18cal"] => some calExpected
   | ["c18lim"] => some (joinSp [toString (lim 1), toString (lim 2), toString (lim 3)])
   | _ => none
 
 def handlers : List (String × Handler) :=
-  ["c18", "c18main", "accept-c18", "c18max", "c18lim", "c18cal"].map (·, handle)
+  ["c18", "c18main", "accept-c18", "c18max", "c18lim", "c18cal", "c18exit"].map (·, handle)
 
 end Avo.Drv.C18
